@@ -34,6 +34,12 @@ where
         return Err(());
     }
 
+    // Negative entries (or NaN, which a provided `normalization` would not reveal) would
+    // lead to a non-monotonic CDF.
+    if !probabilities.iter().all(|&probability| probability >= F::zero()) {
+        return Err(());
+    }
+
     let free_weight =
         wrapping_pow2::<Probability>(PRECISION).wrapping_sub(&probabilities.len().as_());
     let normalization = normalization.unwrap_or_else(|| probabilities.iter().copied().sum::<F>());
